@@ -183,7 +183,7 @@ fn main() {
         cases.push(("gate-fixed".into(), gate::all_fixed()));
         let focus = args.focus.clone().unwrap_or_default();
         let only = |k: &str| focus.is_empty() || !["authz", "gate", "nonint", "preserve"].iter().any(|m| focus.contains(m)) || focus.contains(k);
-        let budgets: [(&str, u64, u64); 4] = [("authz", 480, 9000), ("gate", 60, 2000), ("nonint", 64, 1200), ("preserve", 30, 400)];
+        let budgets: [(&str, u64, u64); 4] = [("authz", 480, 7000), ("gate", 60, 2000), ("nonint", 64, 1200), ("preserve", 30, 400)];
         for (kind, q, t) in budgets {
             if !only(kind) { continue; }
             for i in 0..args.budget(q, t) {
